@@ -97,6 +97,11 @@ def judgeCore (j : JState) (op : Op) (cur : Obs) : String :=
          | some v => v
          | none => firstBad vs
      | _, _, _ => "viol:unparseable-output")
+  | .commit i _ _ _ _ _, ["err", "backpressure"] =>
+    -- Commit refuses with backpressure only while another command is pending; any other source (a
+    -- command-index read that cannot return a stored full-size proposal) makes retries unanswerable
+    let pl := j.prev.leader i
+    if pl.status == "present" && pl.ready && pl.pending == "-" then "viol:backpressure-without-pending" else "ok"
   | _, _ => "ok"
 
 /-- MessageDB stores fed with server-allocated, unkeyed records store the exact retry of an evicted
